@@ -1,54 +1,57 @@
 From Coq Require Import List Arith Bool.
 Import ListNotations.
 From Stam Require Import Model.Conc Spec.ConcSpec Proofs.Conc Props.C20.
-Check (C20_readers_independent : forall c0 st,
-  le_flags (flags st) c0 ->
-  (forall j tj, nth_error (thr st) j = Some tj -> nw c0 (stk tj) = true) ->
-  forall i t o m1, nth_error (thr st) i = Some t -> dead t = false -> out t = [] ->
-  sem (md st) (stk t) = Some (o, m1) ->
-  forall sched n t1 t2,
-    nth_error (thr (run sched st)) i = Some t1 -> finished t1 = true ->
-    nth_error (thr (run (repeat i n) st)) i = Some t2 -> finished t2 = true ->
-    out t1 = out t2 /\ dead t1 = false).
-Check (C20_guarded : forall c0 i sched st t o m1,
-  le_flags (flags st) c0 ->
-  nth_error (thr st) i = Some t -> dead t = false -> out t = [] ->
-  sem (md st) (stk t) = Some (o, m1) ->
-  Known_C20_mode_write c0 (thr st) i = false ->
-  exists t', nth_error (thr (run sched st)) i = Some t' /\ dead t' = false
+Check (C20_independent : forall i sched st t o m1,
+  nth_error (thr st) i = Some t -> dead t = false -> out t = [] -> fout t = [] ->
+  sem (tmd t) (stk t) = Some (o, m1) ->
+  exists t', nth_error (thr (run false sched st)) i = Some t' /\ dead t' = false /\ files_ok t'
              /\ (finished t' = true -> out t' = o)
              /\ exists rest, out t' ++ rest = o).
+Check (C20_alone_or_not : forall i st t o m1,
+  nth_error (thr st) i = Some t -> dead t = false -> out t = [] -> fout t = [] ->
+  sem (tmd t) (stk t) = Some (o, m1) ->
+  forall sched n t1 t2,
+    nth_error (thr (run false sched st)) i = Some t1 -> finished t1 = true ->
+    nth_error (thr (run false (repeat i n) st)) i = Some t2 -> finished t2 = true ->
+    out t1 = out t2 /\ dead t1 = false).
 Check (C20_entry_points : forall f mem o,
   sem Allow (prog (S f) mem o) = Some (spec_out mem o, Allow)).
 Check (C20_scenario : forall sc sched i o,
   nth_error (ops sc) i = Some o ->
-  Known_C20_mode_write (changed0 sc) (thr (init sc)) i = false ->
-  exists t', nth_error (thr (run sched (init sc))) i = Some t' /\ dead t' = false
+  exists t', nth_error (thr (run false sched (init sc))) i = Some t' /\ dead t' = false /\ files_ok t'
              /\ (finished t' = true -> out t' = spec_out (members sc) o)
              /\ exists rest, out t' ++ rest = spec_out (members sc) o).
-Check (C20_scenario_solo : forall sc n i o,
+Check (C20_scenario_solo : forall sh sc n i o,
   nth_error (ops sc) i = Some o ->
-  exists t', nth_error (thr (run (repeat i n) (init sc))) i = Some t' /\ dead t' = false
+  exists t', nth_error (thr (run sh (repeat i n) (init sc))) i = Some t' /\ dead t' = false
              /\ (finished t' = true -> out t' = spec_out (members sc) o)).
 Check (C20_scenario_coarse : forall sc cs i o t',
   nth_error (ops sc) i = Some o ->
-  Known_C20_mode_write (changed0 sc) (thr (init sc)) i = false ->
-  nth_error (thr (run_coarse cs (init sc))) i = Some t' -> finished t' = true ->
-  out t' = spec_out (members sc) o /\ dead t' = false).
-Check (C20_refuted :
+  nth_error (thr (run_coarse false cs (init sc))) i = Some t' ->
+  files_ok t' /\ dead t' = false /\ (finished t' = true -> out t' = spec_out (members sc) o)).
+Check (C20_shared_guarded : forall sc sched i o,
+  nth_error (ops sc) i = Some o ->
+  Shared_mode_race (changed0 sc) (thr (init sc)) i = false ->
+  exists t', nth_error (thr (run true sched (init sc))) i = Some t' /\ dead t' = false /\ files_ok t'
+             /\ (finished t' = true -> out t' = spec_out (members sc) o)
+             /\ exists rest, out t' ++ rest = spec_out (members sc) o).
+Check (C20_shared_refuted :
   exists sc cs i o t', nth_error (ops sc) i = Some o
-    /\ nth_error (thr (run_coarse cs (init sc))) i = Some t' /\ finished t' = true
+    /\ nth_error (thr (run_coarse true cs (init sc))) i = Some t' /\ finished t' = true
     /\ out t' <> spec_out (members sc) o).
-Print Assumptions C20_readers_independent.
-Print Assumptions C20_guarded.
+Print Assumptions C20_independent.
+Print Assumptions C20_alone_or_not.
 Print Assumptions C20_solo.
 Print Assumptions C20_entry_points.
 Print Assumptions C20_scenario.
 Print Assumptions C20_scenario_solo.
 Print Assumptions C20_coarse.
 Print Assumptions C20_scenario_coarse.
-Print Assumptions C20_refuted.
-Print Assumptions C20_refuted_store_loses_include.
-Print Assumptions C20_refuted_member_gets_include.
-Print Assumptions C20_refuted_two_store_serialisations.
-Print Assumptions C20_refuted_file_gets_include.
+Print Assumptions C20_shared_readers_independent.
+Print Assumptions C20_shared_guarded.
+Print Assumptions C20_shared_refuted.
+Print Assumptions C20_shared_refuted_store_loses_include.
+Print Assumptions C20_shared_refuted_member_gets_include.
+Print Assumptions C20_shared_refuted_two_store_serialisations.
+Print Assumptions C20_shared_refuted_file_gets_include.
+Print Assumptions C20_repaired_on_the_witnesses.
